@@ -60,16 +60,16 @@ MATCH_TO_SWITCH = {
     "exec-conn0": "refuse_in_tx",
     "disconnect-while-blocked": "notice_blocked_hangup",
     "wake-batch-overflow": "drain_all",
-    "exec-not-atomic": None,
-    "push-by-script": None,
-    "rename-onto-waited-key": None,
+    "exec-not-atomic": "exec_atomic",
+    "push-by-script": "serve_after_script",
+    "rename-onto-waited-key": "serve_after_script",
 }
 GUARD_MS = 100      # no action starts when a deadline is closer than this
 MARGIN_MS = 60      # a deadline counts as passed this long after it
 LATE_MS = 300       # a nil may be this late
 
 
-SWITCHES = ("notify_per_element", "wake_at_push", "unregister_all", "refuse_in_tx", "dedup_keys", "drain_all", "notice_blocked_hangup", "defer_batch")
+SWITCHES = ("notify_per_element", "wake_at_push", "unregister_all", "refuse_in_tx", "dedup_keys", "drain_all", "notice_blocked_hangup", "defer_batch", "exec_atomic")
 
 
 def cfg_line(facts):
@@ -310,7 +310,9 @@ class HistoryRun:
         sess.ask("reset")
         self.t0 = time.monotonic()
         self.vcount = 0
-        self.pushed = {}            # value -> key
+        self.pushed = {}            # value -> key (written to the socket)
+        self.accepted = set()       # … and acknowledged by the integer reply of its push (a deferred batch may never run)
+        self.push_fifo = [[] for _ in range(nclients)]
         self.delivered = {}         # value -> count
         self.waits = [[] for _ in range(nclients)]     # per client: outstanding blocking pops (harness view)
         self.in_multi = [False] * nclients
@@ -321,6 +323,7 @@ class HistoryRun:
         self.tags = []              # (step, tag): reasons why the history left Allowed (AllowedFixed on a repaired tree)
         self.old_tags = []
         self.self_serve = None
+        self.enc_client = None
         self.oracle = []            # (kind, detail)
         self.disagree = []
         self.flagged = set()
@@ -401,6 +404,8 @@ class HistoryRun:
                 v = b"v%d" % self.vcount
                 vals.append(v)
                 self.pushed[v] = self.keys[ki]
+            if self.enc_client is not None:
+                self.push_fifo[self.enc_client].append(vals)
             name = "LPUSH" if op == "L" else "RPUSH"
             return [name, self.keys[ki]] + vals, "push:%s:%s:%s" % (op, hx(self.keys[ki]), "|".join(hx(v) for v in vals))
         if k == "pop":
@@ -415,6 +420,8 @@ class HistoryRun:
     # ---- bookkeeping of what the implementation answered (harness view, model-free)
     def note_tokens(self, ci, toks, t_recv, step):
         for t in toks:
+            if t.startswith("i") and self.push_fifo[ci]:
+                self.accepted.update(self.push_fifo[ci].pop(0))
             if t.startswith("b="):
                 v = unhx(t[2:])
                 self.delivered[v] = self.delivered.get(v, 0) + 1
@@ -447,6 +454,8 @@ class HistoryRun:
     def oracles(self, step, reg, wq, lists):
         # conservation
         for v, k in self.pushed.items():
+            if v not in self.accepted:
+                continue
             n = self.delivered.get(v, 0) + sum(l.count(v) for l in lists.values() if l is not None)
             if n == 0:
                 self.fail("lost", "element %r pushed to %r is in no list and was returned to no client" % (v, k), step, v)
@@ -687,10 +696,12 @@ class HistoryRun:
                 self.self_serve = cid
             inm = self.in_multi[ci]
             blocked_in_batch = False
+            self.enc_client = ci
             for cmd in action[2]:
                 args, word = self.encode(cmd)
                 wire.append(Client.encode(args))
                 words.append(word)
+            self.enc_client = None
             self.trace.append("%d ms: client %d (conn %d) sends %s" % (t, ci, cid, " ; ".join(" ".join(a.decode() if isinstance(a, bytes) else a for a in self.encode_peek(cmd)) for cmd in action[2])))
             expect = self.model_event("conn %d %d %s" % (cid, t, " ".join(words)), step)
             self.clients[ci].send_raw(b"".join(wire))
@@ -703,7 +714,10 @@ class HistoryRun:
                     inm = False
                 elif cmd[0] == "bpop" and not inm:
                     self.seq += 1
-                    newwaits.append(Wait([self.keys[i] for i in cmd[2]], t, cmd[3], self.seq))
+                    w_ = Wait([self.keys[i] for i in cmd[2]], t, cmd[3], self.seq)
+                    if self.S.facts["defer_batch"] and (newwaits or self.waits[ci]):
+                        w_.late = True          # executed only after the earlier call is answered: no lateness bound from now
+                    newwaits.append(w_)
             self.in_multi[ci] = inm
             self.waits[ci].extend(newwaits)
             ok = self.settle_and_compare(step, expect, t, bool(self.m["deadlines"]) or any(c[0] == "bpop" and c[3] for c in action[2]))
